@@ -209,11 +209,15 @@ def check(tier):
         texts += [json.loads(l)["text"] for l in open(corpus) if l.strip()]
     base = [S.gen_wellformed(rng, collide=0.0) for _ in range(25 if tier == "quick" else 400)]
     # well-formed variations that are NOT defects: tokens declared but used nowhere, tokens used only in a directive
-    extras = ['UNUSED_A = "ua";', "UNUSED_B = /ub+/;", "UNUSED_C = $NUMBER;", 'ONLYPREC = "op";\n@left ONLYPREC;']
+    #   and patterns/strings that begin or end with blanks (the blank is part of the declared value; two values that differ
+    #   only there are different values)
+    extras = ['UNUSED_A = "ua";', "UNUSED_B = /ub+/;", "UNUSED_C = $NUMBER;", 'ONLYPREC = "op";\n@left ONLYPREC;',
+              "GAP_E = / +/;", "TAIL_E = /[a-z]+ /;", "LEAD_E = / xe/;\nTRAIL_E = /xe /;\nMID_E = /xe/;", 'SP_E = " ";\nSP2_E = "  ";',
+              "TAB_E = /\t+/;", 'PAD_E = " pe ";\nNOPAD_E = "pe";']
     for i in range(len(base)):
         if rng.random() < 0.5:
             lines = [l for l in base[i].split("\n") if l.strip()]
-            for e in rng.sample(extras, rng.randint(1, 2)):
+            for e in rng.sample(extras, rng.randint(1, 3)):
                 lines.insert(rng.randint(1, len(lines)), e)
             base[i] = "\n".join(lines) + "\n"
     texts += base
